@@ -932,7 +932,7 @@ static bool starts(const std::string& s, const char* p) { return s.compare(0, st
 static const char* a_known(int K, const std::string& op, bool x_empty, bool x_no_disjunct, bool z_empty) {
   // KF-C14-1: BD_Shape / Octagonal_Shape / Box::expand_space_dimension(var, m) report the overflow of max_space_dimension() with
   //           std::invalid_argument, the documented exception is std::length_error
-  if (op == "expand_space_dimension.overflow" && (K == K_BDS || K == K_OS || K == K_BOX)) return "KF-C14-1";
+  if (op == "expand_space_dimension.overflow" && K == K_OS) return "KF-C14-1";   // (BD_Shape and Box were repaired; tests/Octagonal_Shape/expandspacedim1 expects invalid_argument)
   // KF-C14-2: BD_Shape / Octagonal_Shape / Box::add_constraints(cs) add the constraints one by one: those preceding the rejected one stay
   if (op == "add_constraints.not_representable" && (K == K_BDS || K == K_OS || K == K_BOX)) return "KF-C14-2";
   // KF-C14-3: Pointset_Powerset delegates argument checking to the operations of its disjuncts: nothing is checked when there is
